@@ -351,9 +351,11 @@ fn history(out: &mut Out, r: &mut Rng, cx: &Cx, tag: &str, len: usize) {
                     continue;
                 }
                 let ps = stored_seed(&ct);
-                verdict(out, ps.is_some() == seeded, &format!("seed_saved_iff_requested {} {}", tag, h.ops), &cls, "seed flag does not match the request");
+                // (the library keeps a seed only when c1 has room for the flag word and the 8 seed words: N * k >= 9 at the object's level)
+                let room = ct.data().len() / ct.size().max(1) >= 9;
+                verdict(out, ps.is_some() == (seeded && room), &format!("seed_saved_iff_requested {} {}", tag, h.ops), &cls, "seed flag does not match the request");
                 // API-visible c1 is the recorded uniform sample (after expansion when seeded)
-                let c1: Vec<u64> = if seeded { ct.clone().expand_seed(ctx).poly(1).to_vec() } else { ct.poly(1).to_vec() };
+                let c1: Vec<u64> = if ct.contains_seed() { ct.clone().expand_seed(ctx).poly(1).to_vec() } else { ct.poly(1).to_vec() };
                 // (BFV without seed: the draw is taken as NTT form and c1 is its inverse transform — not compared here)
                 if seeded || as_pk || cx.scheme != SchemeType::BFV {
                     verdict(out, c1 == samples[0].data, &format!("c1_is_expansion_of_seed {} {} seeded={}", tag, h.ops, seeded), &cls, "c1 of the ciphertext differs from the uniform polynomial drawn for it");
@@ -398,7 +400,7 @@ fn history(out: &mut Out, r: &mut Rng, cx: &Cx, tag: &str, len: usize) {
                     let ct = keys[i].as_ciphertext();
                     let ps = stored_seed(ct);
                     if let Some(s) = ps { h.stored_seeds.push(s); }
-                    let c1: Vec<u64> = if seeded { ct.clone().expand_seed(ctx).poly(1).to_vec() } else { ct.poly(1).to_vec() };
+                    let c1: Vec<u64> = if ct.contains_seed() { ct.clone().expand_seed(ctx).poly(1).to_vec() } else { ct.poly(1).to_vec() };
                     verdict(out, c1 == samples[2 * i].data && ps.is_some() == seeded, &format!("kswitch_c1_is_expansion_of_seed {} {} {}", tag, h.ops, i), &cls, "key c1 differs from its uniform draw");
                     h.masks.push(samples[2 * i].data.clone());
                     emit_sym(out, &format!("relin{}-{}", if seeded { "-seeded" } else { "" }, cls), &ent[2 * i..2 * i + 2], None, ps, 2, &samples[2 * i], &samples[2 * i + 1], None);
@@ -425,7 +427,7 @@ fn history(out: &mut Out, r: &mut Rng, cx: &Cx, tag: &str, len: usize) {
     verdict(out, distinct(&fs), &format!("history_factory_seeds_distinct {}", id), &cls, "two generators of one history share a seed");
     verdict(out, distinct(&ss), &format!("history_stored_seeds_distinct {} stored={}", id, ss.len()), &cls, "two seeded objects share their stored seed");
     verdict(out, distinct(&ms), &format!("history_masks_distinct {} masks={}", id, ms.len()), &cls, "two outputs share their mask polynomial");
-    verdict(out, distinct(&sk), &format!("history_secrets_distinct {} keys={}", id, sk.len()), &cls, "two key generators drew the same secret");
+    if sk.first().map(|v| v.len() >= 16).unwrap_or(true) { verdict(out, distinct(&sk), &format!("history_secrets_distinct {} keys={}", id, sk.len()), &cls, "two key generators drew the same secret"); }
 }
 
 /// real entropy (no override): freshness of what the API shows
@@ -611,13 +613,15 @@ pub fn run(out: &mut Out, thorough: bool, seed: u64, extra: &[String]) {
     let hl = if thorough { 60 } else { 16 };
     for k in 1..=6usize {
         for (si, &scheme) in schemes.iter().enumerate() {
-            if !thorough && (k + si) % 3 != 0 && k != 1 && k != 6 { continue; }
-            let n = *r.pick(&[32usize, 64, 128]);
+            if !thorough && (k + si) % 3 != 0 && k != 1 && k != 6 && !(k >= 3 && (k + si) % 2 == 1 && k <= 4) { continue; }
+            // small degrees too: for N <= 8 the 8 seed words stored in a seeded object run past the first RNS component of c1 (N*k >= 9 words are needed)
+            let n = if k >= 3 && (k + si) % 2 == 1 { 8 } else if k == 2 && si == 1 { 8 } else { *r.pick(&[32usize, 64, 128]) };
             let bits: Vec<usize> = (0..k).map(|i| if i == k - 1 && k > 1 { 34 } else { 27 + (i % 3) * 2 }).collect();
             let cx = match make_ctx(scheme, n, bits.clone()) { Some(c) => c, None => { out.raw(&format!("!NOTE context scheme={} n={} bits={:?} not accepted", scheme as u8, n, bits)); continue; } };
             let tag = format!("s{}n{}k{}", scheme as u8, n, k);
             history(out, &mut r, &cx, &tag, hl);
-            if si == k % 3 || thorough { history_real_entropy(out, &cx, &tag, if thorough { 200 } else { 40 }); }
+            // (the distinctness oracles are probabilistic: not meaningful in the tiny sample spaces of N < 16)
+            if n >= 16 && (si == k % 3 || thorough) { history_real_entropy(out, &cx, &tag, if thorough { 200 } else { 40 }); }
         }
     }
     // ---- parameter sets the context accepts whose modulus does not exceed the error bound: errors must be reduced, never refused
